@@ -158,6 +158,60 @@ theorem depsPass_main_origin (rel : Rel) (db : DB) (predId dsId) (cfg : Cfg) (no
       · exact hacc e h
       · exact (List.mem_filter.1 h).2
 
+/-- **a dataset's token is held while a dependency on it is still to come**: when several dependencies watch
+the same dataset (they share the cached page of changes), processing one of them that is not the last leaves the
+token exactly as it was — so whatever batch is delivered, and whatever token is stored with it, before the last of
+them is through, a run that is interrupted there starts the whole page again (nothing is skipped; defect D33 was the
+token moving with the first of them). -/
+theorem depsPass_token_held (rel : Rel) (db : DB) (predId dsId) (cfg : Cfg) (now : Nat) (dep : Dep) (rest : List Dep)
+    (tok : Tok) (cache : List (String × (List Nat × Nat))) (acc : List Nat)
+    (h : rest.any (·.ds == dep.ds) = true) :
+    ∃ cache' acc', depsPass rel db predId dsId cfg now (dep :: rest) tok cache acc
+      = depsPass rel db predId dsId cfg now rest tok cache' acc' ∨
+      depsPass rel db predId dsId cfg now (dep :: rest) tok cache acc = (acc, tok) := by
+  cases hd : dsId dep.ds with
+  | none => exact ⟨cache, acc, .inr (by rw [depsPass]; simp [hd])⟩
+  | some dd =>
+    cases hm : dsId cfg.main with
+    | none => exact ⟨cache, acc, .inr (by rw [depsPass]; simp [hd, hm])⟩
+    | some mainId =>
+      refine ⟨?c, ?a, .inl ?eq⟩
+      case eq =>
+        rw [depsPass]
+        simp only [hd, hm, h, if_true]
+        rfl
+
+/-- a pass never touches the token of a dataset no dependency watches, nor the main token. -/
+theorem depsPass_tok_frame (rel : Rel) (db : DB) (predId dsId) (cfg : Cfg) (now : Nat) (ds : String) :
+    ∀ (deps : List Dep) (tok : Tok) (cache : List (String × (List Nat × Nat))) (acc : List Nat),
+      (∀ d ∈ deps, d.ds ≠ ds) →
+      (depsPass rel db predId dsId cfg now deps tok cache acc).2.dep ds = tok.dep ds
+      ∧ (depsPass rel db predId dsId cfg now deps tok cache acc).2.main = tok.main
+  | [], tok, _, _, _ => by simp [depsPass]
+  | dep :: rest, tok, cache, acc, hne => by
+    unfold depsPass
+    cases hd : dsId dep.ds with
+    | none => simp
+    | some dd =>
+      cases hm : dsId cfg.main with
+      | none => simp
+      | some mainId =>
+        simp only []
+        have hrest : ∀ d ∈ rest, d.ds ≠ ds := fun d hd' => hne d (List.mem_cons_of_mem _ hd')
+        have hdep : dep.ds ≠ ds := hne dep List.mem_cons_self
+        have key : ∀ (tok' : Tok) c a, tok'.dep ds = tok.dep ds → tok'.main = tok.main →
+            (depsPass rel db predId dsId cfg now rest tok' c a).2.dep ds = tok.dep ds
+            ∧ (depsPass rel db predId dsId cfg now rest tok' c a).2.main = tok.main := by
+          intro tok' c a h1 h2
+          have ih := depsPass_tok_frame rel db predId dsId cfg now ds rest tok' c a hrest
+          exact ⟨ih.1.trans h1, ih.2.trans h2⟩
+        apply key
+        · split
+          · rfl
+          · simp only [Tok.dep, Tok.setDep]
+            exact Hub.StoreInv.lookup_setAssoc_ne _ _ _ (fun h => hdep h.symm) _
+        · split <;> rfl
+
 /-! ## the dependency builder -/
 
 theorem dedupDeps_spec : ∀ (l : List Dep) (seen : List String),
@@ -244,7 +298,7 @@ set_option maxRecDepth 16000 in
 open Hub.Facts.MultiSource Hub.Pipe in
 /-- dependencies are processed before the main dataset's page and only outside a full sync (which stamps the
 watermarks instead); a dependency's token is advanced after the join loop — the emissions made from inside the
-loop still carry the old token — and before the final emission; the back-dated query is made for the first
+loop still carry the old token — and before the final emission, and only by the last dependency on that dataset; the back-dated query is made for the first
 join when it is not inverse and a previous window exists, at the time of the change before the token; the
 candidate is looked up in the main dataset; the page of changes is cached per dataset. -/
 theorem facts_multisource :
@@ -252,12 +306,17 @@ theorem facts_multisource :
       = ["if !multiSource.isFullSync {", "multiSource.processDependency", "} else {", "set d.activeDS = \"\"", "multiSource.incrementalRead"]
     ∧ proj ["multiSource.findChanges", "multiSource.Store.GetPredicateID", "multiSource.Store.GetRelatedAtTime", "if idx == 0 && !join.Inverse {",
             "if depSince.AsIncrToken() > 0 {", "set since = depSince.AsIncrToken() - 1", "depDataset.GetChanges", "set prevRelatedFrom.At = timestamp",
-            "multiSource.Store.GetEntityWithInternalID", "processEntities",
+            "multiSource.Store.GetEntityWithInternalID", "processEntities", "if advanceToken {",
             "set d.DependencyTokens[dep.Dataset] = &StringDatasetContinuation{Token: strconv.Itoa(int(continuation))}"] skeleton_processDependency
       = ["multiSource.findChanges", "multiSource.Store.GetPredicateID", "multiSource.Store.GetRelatedAtTime", "if idx == 0 && !join.Inverse {",
          "if depSince.AsIncrToken() > 0 {", "set since = depSince.AsIncrToken() - 1", "depDataset.GetChanges", "set prevRelatedFrom.At = timestamp",
-         "multiSource.Store.GetRelatedAtTime", "multiSource.Store.GetEntityWithInternalID", "processEntities",
+         "multiSource.Store.GetRelatedAtTime", "multiSource.Store.GetEntityWithInternalID", "processEntities", "if advanceToken {",
          "set d.DependencyTokens[dep.Dataset] = &StringDatasetContinuation{Token: strconv.Itoa(int(continuation))}", "processEntities"]
+    -- the dataset's token moves only with the last dependency on that dataset (they share the cached page of changes)
+    ∧ lastOfDataset = ["range multiSource.Dependencies", "range multiSource.Dependencies[i+1:]", "if later.Dataset == dep.Dataset",
+        "call(ctx, dep, d, batchSize, lastOfDataset, processEntities)", "range multiSource.waterMarks"]
+    ∧ proj ["set lastOfDataset = true", "if later.Dataset == dep.Dataset {", "set lastOfDataset = false", "multiSource.processDependency"] skeleton_ReadEntities
+      = ["set lastOfDataset = true", "if later.Dataset == dep.Dataset {", "set lastOfDataset = false", "multiSource.processDependency"]
     ∧ skeleton_findChanges = ["if ok {", "return", "}", "depDataset.ProcessChanges", "set multiSource.changesCache[depDataset.ID] = changeURIData{ids, continuation}", "return"]
     ∧ skeleton_incrementalRead = ["dataset.ProcessChanges", "ret-on-err", "set d.MainToken = strconv.Itoa()", "processEntities", "ret-on-err", "return"]
     ∧ skeleton_StartFullSync = ["set multiSource.isFullSync = true", "multiSource.grabWatermarks"]
